@@ -53,14 +53,14 @@ def main():
         r = sh([PY, "-m", "pytest", "-q", "-p", "no:cacheprovider", "-n", "8", "--timeout=900"] + DESELECT, wt, 7200)
         tail = (r.stdout + r.stderr).strip().splitlines()[-1:]
         failed = re.findall(r"^FAILED (\S+)", r.stdout, re.M)
-        out["suite_xdist"] = {"exit": r.returncode, "last_line": tail, "failed": failed[:20], "wall": round(time.time() - t0)}
+        out["suite_xdist"] = {"exit": r.returncode, "last_line": tail, "failed": failed[:120], "wall": round(time.time() - t0)}
         still = []
-        for f in failed[:20]:
+        for f in failed[:120]:
             rr = sh([PY, "-m", "pytest", "-q", "-p", "no:cacheprovider", f], wt, 1800)
             if rr.returncode != 0:
                 still.append(f)
         out["suite_failures_confirmed_serially"] = still
-        out["suite_passes"] = (r.returncode == 0) or (bool(failed) and not still and len(failed) <= 20)
+        out["suite_passes"] = (r.returncode == 0) or (bool(failed) and not still and len(failed) <= 120)
     dst = os.path.join(VERIF, "seeded", sid)
     os.makedirs(dst, exist_ok=True)
     for f in ("patch.diff", "demo.py", "NOTES.md"):
